@@ -1568,6 +1568,271 @@ fn out_coq(o: &Out, mem_max: Option<u64>) -> String {
     }
 }
 
+// ------------------------------------------------------------------------------------------------
+// the deterministic boundary family (identical for every seed)
+// ------------------------------------------------------------------------------------------------
+type Plan = (Vec<String>, ModSpec, Vec<String>, u64);
+
+/// minimal accepted module: one memory exported as "memory", one function Test_f : [i64] -> [i64]
+fn base() -> (ModSpec, Vec<String>) {
+    let mut m = ModSpec::default();
+    let t = m.type_idx(vec![VT::I64], vec![VT::I64]);
+    m.funcs.push(FuncSpec { ty: t, locals: vec![], body: vec![Stmt::ConstDrop32(1)] });
+    m.memories = Some(vec![(1, None)]);
+    m.exports = Some(vec![("memory".into(), 2, 0), ("Test_f".into(), 0, 0)]);
+    (m, vec!["Test_f".to_string()])
+}
+
+/// the whitelist rows of the generated Coq table (name, params, result, min version): the harness does
+/// not know the whitelist, it only enumerates it
+fn whitelist_rows() -> Vec<(String, usize, u8, u64)> {
+    let path = std::env::var("C45_GEN").unwrap_or_else(|_| "/verif/coq/Gen/C45_wasm_limits.v".to_string());
+    let text = std::fs::read_to_string(&path).unwrap_or_default();
+    let mut rows = Vec::new();
+    let mut in_table = false;
+    for line in text.lines() {
+        if line.starts_with("Definition c45_host_imports") {
+            in_table = true;
+            continue;
+        }
+        if in_table {
+            if line.starts_with("].") {
+                break;
+            }
+            // ([..], (n, r, v)); (* name *)
+            if let (Some(a), Some(b)) = (line.find("], ("), line.find("(* ")) {
+                let nums: Vec<u64> = line[a + 4..].split(|c: char| !c.is_ascii_digit()).filter(|x| !x.is_empty()).take(3).map(|x| x.parse().unwrap()).collect();
+                let name = line[b + 3..].trim_end_matches("*)").trim().to_string();
+                if nums.len() == 3 {
+                    rows.push((name, nums[0] as usize, nums[1] as u8, nums[2]));
+                }
+            }
+        }
+    }
+    rows
+}
+
+fn family(lim: &Limits) -> Vec<Plan> {
+    let mut v: Vec<Plan> = Vec::new();
+    // (a) every mutation of the random generator at limit-1 / limit / limit+1 on a FIXED baseline stream
+    let fixed = Rng::new(0xC45);
+    for i in 0..(MUTATIONS as usize) * 3 {
+        let mut rng = fixed.fork(i as u64);
+        let mut ver = rng.below(3);
+        let (mut m, mut required) = baseline(&mut rng, ver);
+        let k = (i as u32) % MUTATIONS;
+        let delta = Some((i as u64 / MUTATIONS as u64) % 3);
+        let tag = mutate(&mut rng, k, &mut m, &mut required, &mut ver, lim, delta);
+        v.push((vec![tag], m, required, ver));
+    }
+    // (b) memory: initial x declared maximum around the limit
+    for init in [lim.mem - 1, lim.mem, lim.mem + 1] {
+        for mx in [None, Some(lim.mem - 1), Some(lim.mem), Some(lim.mem + 1), Some(lim.mem + 2)] {
+            let (mut m, req) = base();
+            m.memories = Some(vec![(init, mx)]);
+            v.push((vec![format!("fam_mem_init{:+}_max{}", init as i64 - lim.mem as i64, mx.map(|x| format!("{:+}", x as i64 - lim.mem as i64)).unwrap_or("none".into()))], m, req, 2));
+        }
+    }
+    // (c) table: initial around the limit, with and without a maximum
+    for init in [lim.table - 1, lim.table, lim.table + 1] {
+        for with_max in [false, true] {
+            let (mut m, req) = base();
+            m.tables = Some(vec![(init as u32, if with_max { Some(init as u32 + 5) } else { None })]);
+            v.push((vec![format!("fam_table_init{:+}_{}", init as i64 - lim.table as i64, if with_max { "max" } else { "nomax" })], m, req, 2));
+        }
+    }
+    // (d) br_table: around the limit, in the first / last of three functions, and a legal one followed by an illegal one
+    for n in [lim.br - 1, lim.br, lim.br + 1] {
+        for pos in [0usize, 2] {
+            let (mut m, req) = base();
+            add_func(&mut m, vec![], vec![], vec![], vec![Stmt::Nop]);
+            add_func(&mut m, vec![], vec![], vec![], vec![Stmt::Nop]);
+            m.funcs[pos].body.push(Stmt::BrTable(n));
+            v.push((vec![format!("fam_br_table{:+}_fn{}", n as i64 - lim.br as i64, pos)], m, req, 2));
+        }
+    }
+    {
+        let (mut m, req) = base();
+        m.funcs[0].body.push(Stmt::BrTable(lim.br));
+        m.funcs[0].body.push(Stmt::BrTable(lim.br + 1));
+        v.push((vec!["fam_br_table_legal_then_illegal".into()], m, req, 2));
+    }
+    // (e) locals: around the limit as one group, two groups, many groups of one, and split over two functions
+    for n in [lim.locals - 1, lim.locals, lim.locals + 1] {
+        let d = n as i64 - lim.locals as i64;
+        let (mut m, req) = base();
+        m.funcs[0].locals = vec![(n as u32, VT::I32)];
+        v.push((vec![format!("fam_locals{:+}_one_group", d)], m, req, 2));
+        let (mut m, req) = base();
+        m.funcs[0].locals = vec![(1, VT::I64), (n as u32 - 1, VT::I32)];
+        v.push((vec![format!("fam_locals{:+}_two_groups", d)], m, req, 2));
+        let (mut m, req) = base();
+        m.funcs[0].locals = (0..n).map(|j| (1u32, if j % 2 == 0 { VT::I32 } else { VT::I64 })).collect();
+        v.push((vec![format!("fam_locals{:+}_groups_of_one", d)], m, req, 2));
+        let (mut m, req) = base();
+        add_func(&mut m, vec![], vec![], vec![(n as u32, VT::I64)], vec![]);
+        v.push((vec![format!("fam_locals{:+}_last_function", d)], m, req, 2));
+    }
+    // (f) parameters: around the limit on the first / middle / last local function, without and with imports
+    for n in [31usize, 32, 33] {
+        for (pos, nimp) in [(0usize, 0usize), (1, 0), (2, 0), (0, 1), (1, 1), (2, 1), (1, 2)] {
+            let (mut m, req) = base();
+            for _ in 0..nimp {
+                let t = m.type_idx(vec![VT::I32; 2], vec![]);
+                insert_import(&mut m, ("env".into(), "buffer_consume".into(), ImpKind::Func(t)));
+            }
+            // three more local functions; `pos` gets the parameters
+            for j in 0..3 {
+                add_func(&mut m, if j == pos { vec![VT::I32; n] } else { vec![] }, vec![], vec![], vec![]);
+            }
+            v.push((vec![format!("fam_params{:+}_pos{}_imports{}", n as i64 - 32, pos, nimp)], m, req, 2));
+        }
+    }
+    // (g) globals around the limit
+    for n in [lim.globals - 1, lim.globals, lim.globals + 1] {
+        let (mut m, req) = base();
+        for j in 0..n {
+            m.globals.push((if j % 2 == 0 { VT::I32 } else { VT::I64 }, j % 3 == 0));
+        }
+        v.push((vec![format!("fam_globals{:+}", n as i64 - lim.globals as i64)], m, req, 2));
+    }
+    // (h) host imports: every whitelist row at every VM version with the exact signature; wrong signatures
+    //     (one parameter more / less, each other result, one i64 parameter) at every version; the same name
+    //     as a global / from another module
+    for (name, np, res, minv) in whitelist_rows() {
+        for ver in 0..3u64 {
+            let (mut m, req) = base();
+            let t = m.type_idx(vec![VT::I32; np], res_vts(res));
+            insert_import(&mut m, ("env".into(), name.clone(), ImpKind::Func(t)));
+            m.funcs[0].body.push(Stmt::CallFn(0));
+            v.push((vec![format!("fam_import_exact_v{}_{}", ver, if ver < minv { "too_old" } else { "ok" })], m, req, ver));
+        }
+        for ver in 0..3u64 {
+            let mut sigs: Vec<(String, Vec<VT>, Vec<VT>)> = vec![("more".into(), vec![VT::I32; np + 1], res_vts(res))];
+            if np > 0 {
+                sigs.push(("less".into(), vec![VT::I32; np - 1], res_vts(res)));
+                let mut p = vec![VT::I32; np];
+                p[np - 1] = VT::I64;
+                sigs.push(("i64_last".into(), p, res_vts(res)));
+                let mut p = vec![VT::I32; np];
+                p[0] = VT::I64;
+                sigs.push(("i64_first".into(), p, res_vts(res)));
+            }
+            sigs.push(("result_a".into(), vec![VT::I32; np], res_vts((res + 1) % 3)));
+            sigs.push(("result_b".into(), vec![VT::I32; np], res_vts((res + 2) % 3)));
+            for (what, p, r) in sigs {
+                let (mut m, req) = base();
+                let t = m.type_idx(p, r);
+                insert_import(&mut m, ("env".into(), name.clone(), ImpKind::Func(t)));
+                v.push((vec![format!("fam_import_wrong_{}_v{}", what, ver)], m, req, ver));
+            }
+        }
+        let (mut m, req) = base();
+        insert_import(&mut m, ("env".into(), name.clone(), ImpKind::Global(VT::I32)));
+        v.push((vec!["fam_import_name_as_global".into()], m, req, 2));
+        let (mut m, req) = base();
+        let t = m.type_idx(vec![VT::I32; np], res_vts(res));
+        insert_import(&mut m, ("Env".into(), name.clone(), ImpKind::Func(t)));
+        v.push((vec!["fam_import_other_module".into()], m, req, 2));
+    }
+    // (i) export names
+    for name in ["a-b", "1abc", "fn", "", "_", "a b", "self", "x.y", "r#fn", "r#x", "h\u{e9}llo", "_9", "Abc_9", "memory2", "crate", "Self", "async", "try", "\u{dc}n\u{ef}"] {
+        let (mut m, req) = base();
+        let f = add_func(&mut m, vec![], vec![], vec![], vec![]);
+        m.exports.as_mut().unwrap().push((name.to_string(), 0, f));
+        v.push((vec![format!("fam_export_name_{}", if ident_ok(name) { "ident" } else { "not_ident" })], m, req, 2));
+    }
+    // (j) order of the pipeline: every pair of violations, the earlier check must answer
+    let violations: Vec<(&str, fn(&mut ModSpec, &mut Vec<String>, &Limits))> = vec![
+        ("start", |m, _, _| {
+            let f = add_func(m, vec![], vec![], vec![], vec![]);
+            m.start = Some(f);
+        }),
+        ("import", |m, _, _| {
+            let t = m.type_idx(vec![VT::I64], vec![]);
+            insert_import(m, ("env".into(), "gas".into(), ImpKind::Func(t)));
+        }),
+        ("export_name", |m, _, _| {
+            let f = add_func(m, vec![], vec![], vec![], vec![]);
+            m.exports.as_mut().unwrap().push(("a-b".into(), 0, f));
+        }),
+        ("memory", |m, _, l| {
+            m.memories = Some(vec![(1, Some(l.mem + 1))]);
+        }),
+        ("table", |m, _, l| {
+            m.tables = Some(vec![(l.table as u32 + 1, None)]);
+        }),
+        ("br_table", |m, _, l| {
+            m.funcs[0].body.push(Stmt::BrTable(l.br + 1));
+        }),
+        ("params", |m, _, _| {
+            // first local function (no imports are added after this one in a pair, see below)
+            let t = m.type_idx(vec![VT::I32; 33], vec![]);
+            m.funcs.insert(0, FuncSpec { ty: t, locals: vec![], body: vec![] });
+            for e in m.exports.as_mut().unwrap().iter_mut() {
+                if e.1 == 0 {
+                    e.2 += 1;
+                }
+            }
+            if let Some(s) = m.start.as_mut() {
+                *s += 1;
+            }
+        }),
+        ("locals", |m, _, l| {
+            m.funcs[0].locals.push((l.locals as u32 + 1, VT::I32));
+        }),
+        ("globals", |m, _, l| {
+            while m.globals.len() <= l.globals as usize {
+                m.globals.push((VT::I32, false));
+            }
+        }),
+        ("required_export", |_, req, _| {
+            req.push("Missing_fn".into());
+        }),
+    ];
+    for i in 0..violations.len() {
+        for j in (i + 1)..violations.len() {
+            // "import" shifts function indices and would move the 33-parameter function out of the checked
+            // prefix: apply "params" before "import"
+            let (mut m, mut req) = base();
+            let (a, b) = (&violations[i], &violations[j]);
+            if a.0 == "import" && b.0 == "params" {
+                (b.1)(&mut m, &mut req, lim);
+                (a.1)(&mut m, &mut req, lim);
+            } else {
+                (a.1)(&mut m, &mut req, lim);
+                (b.1)(&mut m, &mut req, lim);
+            }
+            v.push((vec![format!("fam_order_{}_then_{}", a.0, b.0)], m, req, 2));
+        }
+    }
+    v
+}
+
+// counts of the deterministic family on the unmodified code (a class that stops being generated, or
+// whose outcome moves, fails the run)
+const FAMILY_FLOORS: &[(&str, u64)] = &[
+    ("fam|verdict_VImportNotAllowed", 86),
+    ("fam|verdict_VInitialTableSizeLimitExceeded", 6),
+    ("fam|verdict_VInvalid", 33),
+    ("fam|verdict_VInvalidExportName", 15),
+    ("fam|verdict_VInvalidFunctionType", 527),
+    ("fam|verdict_VMemoryNotExported", 9),
+    ("fam|verdict_VMemorySizeLimitExceeded", 11),
+    ("fam|verdict_VMissingExport", 6),
+    ("fam|verdict_VMissingMemorySection", 2),
+    ("fam|verdict_VNoMemoryDefinition", 2),
+    ("fam|verdict_VProtocolVersionMismatch", 80),
+    ("fam|verdict_VStartFunctionNotAllowed", 9),
+    ("fam|verdict_VTooManyFunctionLocals", 5),
+    ("fam|verdict_VTooManyFunctionParams", 6),
+    ("fam|verdict_VTooManyFunctions", 1),
+    ("fam|verdict_VTooManyGlobals", 2),
+    ("fam|verdict_VTooManyTargetsInBrTable", 6),
+    ("fam|verdict_accepted", 156),
+    ("fam|verdict_post_rule_NotInstantiatable", 4),
+];
+
 fn main() {
     let args = Args::parse();
     let lim = limits();
@@ -1583,23 +1848,29 @@ fn main() {
     let thorough = args.tier == "thorough";
     let mut corpus: Vec<Vec<u8>> = Vec::new();
 
-    for i in 0..args.cases {
+    let fam = family(&lim);
+    let n_fam = fam.len();
+    report.count_n("family_cases", n_fam as u64);
+    for i in 0..(n_fam + args.cases) {
         let mut rng = root.fork(i as u64);
-        let mut ver = rng.below(3);
-        let (mut m, mut required) = baseline(&mut rng, ver);
-        let mut tags: Vec<String> = Vec::new();
-        // the first MUTATIONS*3 cases sweep every mutation at limit-1 / limit / limit+1; afterwards random
-        let sweep = i < (MUTATIONS as usize) * 3;
-        let nmut = if sweep { 1 } else { [0, 1, 1, 1, 2][rng.usize_below(5)] };
-        for j in 0..nmut {
-            let mut k = if sweep && j == 0 { (i as u32) % MUTATIONS } else { rng.below(MUTATIONS as u64) as u32 };
-            // the function-count sweep builds 8k functions: keep it rare outside the sweep
-            if k == 13 && !sweep && !(thorough && rng.chance(1, 4)) {
-                k = 12;
+        let in_family = i < n_fam;
+        let (tags, m, required, ver): Plan = if in_family {
+            fam[i].clone()
+        } else {
+            let mut ver = rng.below(3);
+            let (mut m, mut required) = baseline(&mut rng, ver);
+            let mut tags: Vec<String> = Vec::new();
+            let nmut = [0, 1, 1, 1, 2][rng.usize_below(5)];
+            for _ in 0..nmut {
+                let mut k = rng.below(MUTATIONS as u64) as u32;
+                // the function-count mutation builds 8k functions: keep it rare in the random stream
+                if k == 13 && !(thorough && rng.chance(1, 4)) {
+                    k = 12;
+                }
+                tags.push(mutate(&mut rng, k, &mut m, &mut required, &mut ver, &lim, None));
             }
-            let delta = if sweep { Some((i as u64 / MUTATIONS as u64) % 3) } else { None };
-            tags.push(mutate(&mut rng, k, &mut m, &mut required, &mut ver, &lim, delta));
-        }
+            (tags, m, required, ver)
+        };
         let code = m.encode();
         let sum = summarize(&code);
         let out = run_validator(&code, ver, &required);
@@ -1624,6 +1895,12 @@ fn main() {
             }
         };
         report.count(&format!("verdict_{}", class));
+        if in_family {
+            report.count(&format!("fam|verdict_{}", class));
+            for t in &tags {
+                report.count(&format!("fam|{}|{}", t.split('_').take(2).collect::<Vec<_>>().join("_"), class));
+            }
+        }
         for t in &tags {
             report.count(&format!("mut_{}", t));
             if matches!(out, Out::Passed(..)) {
@@ -1719,7 +1996,7 @@ fn main() {
     report.floor("verdict_accepted", n / 20);
     report.floor("verdict_VInvalid", n / 50);
     report.floor("b_mutated_rejected", (nb as u64) / 10);
-    if args.cases >= (MUTATIONS as usize) * 3 {
+    {
         for k in [
             "verdict_VStartFunctionNotAllowed",
             "verdict_VImportNotAllowed",
@@ -1738,6 +2015,9 @@ fn main() {
         ] {
             report.floor(k, 1);
         }
+    }
+    for (k, m) in FAMILY_FLOORS {
+        report.floor(k, *m);
     }
     cw.write(&args.out, args.shards).unwrap();
     report.write(&args.out).unwrap();
